@@ -28,10 +28,12 @@ CONSTANTS
   FailSaves = FALSE
   Focus = TRUE
   Record = FALSE
+  ReadOnly = FALSE
   RM = FALSE
   Slots = 1
   RmUuids = {1, 2}
   Scrapes = FALSE
+  HookScrapes = FALSE
   Marking = TRUE
   WindAt = 0
   Gaps = {}
